@@ -97,9 +97,12 @@ def run(eng, tier):
     nwire = check_wire(eng, PROP, ['bid(old format)', 'bid'])
     nconv = 0; inside = outside = 0
     req = eng.s.get('serde', {}).get('required_fields', {})
-    v2 = [k for k in req if k.endswith('bid_order::BidOrderV2')]
+    from wire import role_type
+    OLD_T = role_type(eng, 'bid(old format)'); NEW_T = role_type(eng, 'bid')
+    eng.ob(OLD_T is not None and NEW_T is not None, PROP, 'anchor', 'bid-formats', 'cannot identify the old and the current bid record types from the storage accesses (old %s, current %s)' % (OLD_T, NEW_T))
+    v2 = [k for k in req if k == OLD_T]
     eng.ob(bool(v2) and 'events' in req[v2[0]], PROP, 'skip-rule', 'events-required', 'BidOrderV2.events is not a required field of the derived Deserialize impl: current-format bids would decode as old-format ones and be rewritten')
-    v3 = [k for k in req if k.endswith('bid_order::BidOrderV3')]
+    v3 = [k for k in req if k == NEW_T]
     eng.ob(bool(v3) and all(a in req[v3[0]] for a in ('accumulated_base', 'accumulated_quote', 'accumulated_fee')), PROP, 'skip-rule', 'accumulators-required', 'BidOrderV3 accumulators are not required fields')
     for p in oks:
         bw = [w for w in p.writes if w['ns'] == 'bid']
@@ -137,9 +140,9 @@ def run(eng, tier):
                        sample={'rule': 'keys', 'filter': [(tuple(PF(f) for f in fs), K(r)) for fs, r in lam[3]]})
             # range / load are typed as the old format
             rng = [e for e in reads if e[3] == 'range']
-            eng.ob(bool(rng) and any('BidOrderV2' in str(e[4][3]) for e in rng), PROP, 'keys', 'range-typed-old', 'the scanned range is not decoded as the old bid format')
+            eng.ob(bool(rng) and any(OLD_T is not None and OLD_T in e[4][3] for e in rng), PROP, 'keys', 'range-typed-old', 'the scanned range is not decoded as the old bid format')
             val = w['val']
-            eng.ob(val[0] == 'adt' and val[1].endswith('BidOrderV3'), PROP, 'conversion', 'built', 'the saved bid is not built as a current-format record', where=w['site'])
+            eng.ob(val[0] == 'adt' and val[1] == NEW_T, PROP, 'conversion', 'built', 'the saved bid is not built as a current-format record', where=w['site'])
             if val[0] != 'adt': continue
             d = dict(val[3])
             OLD = d.get('id')[1] if d.get('id') and d['id'][0] == 'f' else None
@@ -152,7 +155,7 @@ def run(eng, tier):
             if not okold: continue
             if not entry_form:
                 ld = [e for e in reads if e[3] == 'load' and eng.N['migrate'](e[2]) == k]
-                eng.ob(bool(ld) and all('BidOrderV2' in str(e[4][5]) for e in ld), PROP, 'conversion', 'loaded-as-old', 'the record to convert is not loaded as the old format', where=w['site'])
+                eng.ob(bool(ld) and all(OLD_T is not None and OLD_T in e[4][5] for e in ld), PROP, 'conversion', 'loaded-as-old', 'the record to convert is not loaded as the old format', where=w['site'])
             for fld in ('base', 'fee', 'id', 'owner', 'price', 'quote'):
                 eng.ob(d.get(fld) == F(OLD, fld), PROP, 'conversion', 'field:' + fld, 'converted %s is %s, not the old record\'s %s' % (fld, K(d.get(fld))[:100] if d.get(fld) else None, fld), where=w['site'])
             for acc in ('accumulated_base', 'accumulated_quote', 'accumulated_fee'):
